@@ -100,6 +100,16 @@ Fixpoint paren (e : expr) : expr :=
   | Un o e => let e' := paren e in Un o (par_if (level e' <? plvl o) e')
   | Par e => paren e
   end.
+(* re-parenthesising a tree that keeps its own groups (what a renderer does that wraps an operand when the
+   operand's operator binds looser than its position requires); extra: operands wrapped although not needed *)
+Fixpoint reparen (extra : expr -> bool) (e : expr) : expr :=
+  match e with
+  | Atom n => Atom n
+  | Bin o a b => let a' := reparen extra a in let b' := reparen extra b in
+                 Bin o (par_if (level a' <? lvl o) a') (par_if (level b' <=? lvl o) b')
+  | Un o e => let e' := reparen extra e in Un o (par_if ((level e' <? plvl o) || extra e') e')
+  | Par e => Par (reparen extra e)
+  end.
 Fixpoint no_par (e : expr) : Prop :=
   match e with Atom _ => True | Bin _ a b => no_par a /\ no_par b | Un _ e => no_par e | Par _ => False end.
 Fixpoint ops_ok (e : expr) : Prop :=
@@ -146,5 +156,6 @@ Definition isbin_of (L : list lv) (k : nat) : bool := match nth_error L k with S
 Definition parse_with (L : list lv) := parse str (length L) (lvl_of L) (plvl_of L) (isbin_of L).
 Definition flatten_with (L : list lv) := flatten str (lvl_of L).
 Definition paren_with (L : list lv) := paren str (length L) (lvl_of L) (plvl_of L).
+Definition reparen_with (L : list lv) := reparen str (length L) (lvl_of L) (plvl_of L).
 (* kinds and operators without the tree names: what decides the grouping *)
 Definition ladder_ops (L : list lv) : list (bool * list str) := map (fun l => (lv_bin l, lv_ops l)) L.
